@@ -41,3 +41,6 @@ RULE = RULE + " Round 10: W4 - one raw data write transfers at most 1-1000 bytes
 # every child process of this property (workers, the determinism worker, replays, warm-up) may use up to 4 numba threads;
 # a scenario runs on 1 unless it says otherwise ("numba_threads", see sim.core._set_numba_threads)
 CHILD_ENV = {"NUMBA_NUM_THREADS": "4"}
+
+# dimensions added in seeded round 11
+RULE = RULE + " Round 11: 0.15% of runs (0.5% thorough) decimate 8.6e6 x 4 8-bit samples with values 250-255 by tfactor ~4.3e6, ffactor 4 (each output value averages ~1.7e7 inputs; bin sums beyond 2^32); C07 children may use up to 4 numba threads, every scenario runs on 1 unless it says otherwise."
